@@ -23,6 +23,7 @@ type Explorer struct {
 
 	seen        map[Key]struct{}
 	stack       [][]int
+	curRun      *runChooser
 	States      int
 	Transitions int
 	Execs       int
@@ -82,6 +83,7 @@ func (e *Explorer) RunOne(prefix []int, keepLog bool) (*World, []int, bool) {
 	w.KeepLog = keepLog
 	body := e.Setup(w)
 	r := &runChooser{e: e, prefix: prefix}
+	e.curRun = r
 	cut := w.Run(body, r)
 	return w, r.choices, cut || r.cut
 }
@@ -121,4 +123,12 @@ func Replay(setup func(w *World) func(), choices []int) (*World, string) {
 		sb.WriteByte('\n')
 	}
 	return w, sb.String()
+}
+
+// CurrentChoices returns the choices made so far in the execution in progress.
+func (e *Explorer) CurrentChoices() []int {
+	if e.curRun == nil {
+		return nil
+	}
+	return e.curRun.choices
 }
